@@ -120,3 +120,13 @@ CHECKS.update({
    note=STAT_NOTE + "That the four Python kernels are instances of the generic kernel model is established by correspondence (no source translator for them). ecc is compared engine-vs-engine only. "
         "numba is absent: 'compiled' execution is not exercised."),
 })
+CHECKS.update({
+ 'C08': dict(
+   text="Proof: Properties/C08.v - for the model of locate's tail (de-duplication by where_close, rescale, minmass/maxsize filters, topn, ep with negative->NaN, ep attachment): every returned "
+        "row has mass > minmass, size < maxsize, no two rows closer than separation, ep never negative (positive, +inf or NaN for positive noise); topn returns at most n rows, the most massive; "
+        "raising minmass / lowering maxsize / setting topn only removes rows and changes no kept value, and filtering the laxer result equals the direct result (which justifies the hook-free "
+        "tie); monitors sound; the pre-fix code is refuted on the F2/F3 witnesses. Correspondence: locate run unrestricted and restricted on noise textures and blob images (2-D/3-D, "
+        "iso/anisotropic, preprocess on/off), rows matched bit for bit, verified monitors on every output, exact rational ep vs float ep.",
+   note=STAT_NOTE + "'Inside the image' is monitored on outputs; its proof is C07's window invariant. Everything before the tail (bandpass, maxima, refinement) is C06/C07/C10. topn=0 (returns everything) "
+        "and ep=0.0 at exactly zero measured noise are outside / at the edge of the property and only counted."),
+})
